@@ -70,38 +70,92 @@ theorem bpp_differs_below_8 : max 8 4 * 3 / BPP_DIV ≠ Spec.Png.bppSpec 3 4 := 
 
 /-! ### filter chains -/
 
-/-- **chains of ANY length** over {FlateDecode, LZWDecode, ASCII85Decode}, no active predictor:
-decoding the reference encoding of `x` gives `x` (flate2 / weezl enter as hypotheses). -/
+/-- **chains of ANY length** over {FlateDecode, LZWDecode, ASCII85Decode} with PER-STAGE parameters and PNG
+predictors at any stage: if stage `k` is decoded with the parameters `cs[k].p` the chain was encoded for, decoding the
+reference encoding of `x` gives `x` (flate2 / weezl enter as hypotheses). Both parameter forms are instances:
+`chain_rt_dict` (one dictionary for every stage) and `chain_rt_array` (array parallel to the filters). -/
 theorem chain_rt (ext : Ext) (deflate : Bytes → Bytes) (lzwEnc : Bool → Bytes → Bytes)
     (hfl : ∀ x, ext.inflate (deflate x) = x) (hne : ∀ x, deflate x ≠ [])
     (hlzw : ∀ e x, ext.lzw e (lzwEnc e x) = x)
-    (s : Strm) (f : Stage) (fs : List Stage) (x : Bytes)
-    (hF : s.dict.get K_FILTER = some (.arr ((f :: fs).map fun f => Obj.name f.name)))
-    (hp : predictorInactive (decodeParms s.dict))
-    (hc : s.content = encChain deflate lzwEnc (earlyChange (decodeParms s.dict)) (f :: fs) x) :
+    (s : Strm) (c : StageEnc) (cs : List StageEnc) (x : Bytes)
+    (hF : s.dict.get K_FILTER = some (.arr ((c :: cs).map fun c => Obj.name c.f.name)))
+    (hP : ∀ k (h : k < (c :: cs).length), stageParms s.dict k = ((c :: cs)[k]).p)
+    (hv : ChainValid deflate lzwEnc (c :: cs) x)
+    (hc : s.content = encChainP deflate lzwEnc (c :: cs) x) :
     decompressedContent ext s = .ok x ∧ getPlainContent ext s = .ok x := by
-  have h := decoded_of_filters ext s f fs (streamFilters_arr _ _ hF)
-  have r := filterLoop_rt ext deflate lzwEnc (decodeParms s.dict) hfl hne hlzw hp (f :: fs) x
-  rw [h.1, h.2, hc]
+  have hF' : s.dict.get K_FILTER = some (.arr (((c :: cs).map (·.f)).map fun f => Obj.name f.name)) := by
+    rw [hF, List.map_map]; rfl
+  have h := decoded_of_filters ext s c.f (cs.map (·.f)) (by simpa using streamFilters_arr _ _ hF')
+  have r := filterLoop_rtP ext deflate lzwEnc hfl hne hlzw (stageParms s.dict) x (c :: cs) 0
+    (by intro k hk; simpa using hP k hk) hv
+  have e : ((c :: cs).map fun c => c.f.name) = (c.f :: cs.map (·.f)).map Stage.name := by
+    simp [List.map_map, Function.comp_def]
+  rw [h.1, h.2, hc, ← e]
   exact ⟨r, r⟩
+
+/-- dictionary form: the one dictionary is the parameter object of every stage -/
+theorem chain_rt_dict (ext : Ext) (deflate : Bytes → Bytes) (lzwEnc : Bool → Bytes → Bytes)
+    (hfl : ∀ x, ext.inflate (deflate x) = x) (hne : ∀ x, deflate x ≠ [])
+    (hlzw : ∀ e x, ext.lzw e (lzwEnc e x) = x)
+    (s : Strm) (c : StageEnc) (cs : List StageEnc) (x : Bytes) (d : Dict)
+    (hF : s.dict.get K_FILTER = some (.arr ((c :: cs).map fun c => Obj.name c.f.name)))
+    (hD : s.dict.get K_DECODEPARMS = some (.dict d))
+    (hall : ∀ c' ∈ c :: cs, c'.p = some d)
+    (hv : ChainValid deflate lzwEnc (c :: cs) x)
+    (hc : s.content = encChainP deflate lzwEnc (c :: cs) x) :
+    decompressedContent ext s = .ok x ∧ getPlainContent ext s = .ok x :=
+  chain_rt ext deflate lzwEnc hfl hne hlzw s c cs x hF
+    (by intro k hk; rw [stageParms_dict _ _ _ hD, hall _ (List.getElem_mem hk)]) hv hc
+
+/-- the element of a `DecodeParms` array that denotes the parameters `p` -/
+def parmsObj : Option Dict → Obj
+  | some d => .dict d
+  | none => .null
+
+/-- **array form** (the clause of the property that was false before the repair of F-C09-b): `DecodeParms` is an
+array parallel to the filters, element `k` a dictionary or null. -/
+theorem chain_rt_array (ext : Ext) (deflate : Bytes → Bytes) (lzwEnc : Bool → Bytes → Bytes)
+    (hfl : ∀ x, ext.inflate (deflate x) = x) (hne : ∀ x, deflate x ≠ [])
+    (hlzw : ∀ e x, ext.lzw e (lzwEnc e x) = x)
+    (s : Strm) (c : StageEnc) (cs : List StageEnc) (x : Bytes)
+    (hF : s.dict.get K_FILTER = some (.arr ((c :: cs).map fun c => Obj.name c.f.name)))
+    (hA : s.dict.get K_DECODEPARMS = some (.arr ((c :: cs).map fun c => parmsObj c.p)))
+    (hv : ChainValid deflate lzwEnc (c :: cs) x)
+    (hc : s.content = encChainP deflate lzwEnc (c :: cs) x) :
+    decompressedContent ext s = .ok x ∧ getPlainContent ext s = .ok x :=
+  chain_rt ext deflate lzwEnc hfl hne hlzw s c cs x hF
+    (by
+      intro k hk
+      rw [stageParms_arr _ _ _ hA]
+      have : ((c :: cs).map fun c => parmsObj c.p)[k]? = some (parmsObj ((c :: cs)[k]).p) := by
+        rw [List.getElem?_map, List.getElem?_eq_getElem hk]; rfl
+      rw [this]
+      cases ((c :: cs)[k]).p <;> rfl) hv hc
 
 /-- toy external codecs meeting the hypotheses (non-vacuity) -/
 def toyExt : Ext := { inflate := fun y => y.tail, lzw := fun _ y => y.tail }
+/-- `Filter [/ASCII85Decode /LZWDecode /FlateDecode]`, `DecodeParms [null null <</Predictor 12 /Columns 2>>]` -/
+def toyChain : List StageEnc :=
+  [⟨.a85, none, none⟩, ⟨.lzw, none, none⟩, ⟨.flate, some wParms, some [(.up, [1, 2]), (.paeth, [3, 4])]⟩]
 def toyStream : Strm :=
-  { dict := [(K_FILTER, .arr [.name F_A85, .name F_FLATE, .name F_LZW])],
-    content := encChain (fun x => 0 :: x) (fun _ x => 1 :: x) true [.a85, .flate, .lzw] [7, 8, 9] }
-example : decompressedContent toyExt toyStream = .ok [7, 8, 9] :=
-  (chain_rt toyExt (fun x => 0 :: x) (fun _ x => 1 :: x) (fun _ => rfl) (fun _ => by simp) (fun _ _ => rfl)
-    toyStream .a85 [.flate, .lzw] [7, 8, 9] rfl (by trivial) rfl).1
+  { dict := [(K_FILTER, .arr [.name F_A85, .name F_LZW, .name F_FLATE]),
+             (K_DECODEPARMS, .arr [.null, .null, .dict wParms])],
+    content := encChainP (fun x => 0 :: x) (fun _ x => 1 :: x) toyChain [1, 2, 3, 4] }
+example : decompressedContent toyExt toyStream = .ok [1, 2, 3, 4] :=
+  (chain_rt_array toyExt (fun x => 0 :: x) (fun _ x => 1 :: x) (fun _ => rfl) (fun _ => by simp) (fun _ _ => rfl)
+    toyStream ⟨.a85, none, none⟩ [⟨.lzw, none, none⟩, ⟨.flate, some wParms, some [(.up, [1, 2]), (.paeth, [3, 4])]⟩]
+    [1, 2, 3, 4] rfl rfl
+    ⟨Or.inl rfl, Or.inr (by trivial),
+     ⟨wParms, rfl, by decide, by decide, by decide, by decide, by decide, by decide, by decide⟩, trivial⟩ rfl).1
 
-/-- **Flate / LZW stage with a PNG predictor** (Predictor 10–15, any Columns, Colors, BitsPerComponent 8 or 16,
-parameters as a DICTIONARY): the decoded content is the image whose rows the PNG encoder filtered. -/
+/-- **Flate / LZW stage with a PNG predictor** (Predictor 10–15, any Columns, Colors, BitsPerComponent 8 or 16),
+parameters as a DICTIONARY or as a one-element ARRAY: the decoded content is the image whose rows the PNG encoder filtered. -/
 theorem stream_png_rt (ext : Ext) (deflate : Bytes → Bytes) (lzwEnc : Bool → Bytes → Bytes)
     (hfl : ∀ x, ext.inflate (deflate x) = x) (hne : ∀ x, deflate x ≠ [])
     (hlzw : ∀ e x, ext.lzw e (lzwEnc e x) = x)
     (s : Strm) (f : Stage) (hf : f ≠ .a85) (p : Dict)
-    (hF : s.dict.get K_FILTER = some (.name f.name))
-    (hP : s.dict.get K_DECODEPARMS = some (.dict p))
+    (hF : s.dict.get K_FILTER = some (.name f.name) ∨ s.dict.get K_FILTER = some (.arr [.name f.name]))
+    (hP : s.dict.get K_DECODEPARMS = some (.dict p) ∨ s.dict.get K_DECODEPARMS = some (.arr [.dict p]))
     (hact : (predGeom p).active = true)
     (hbits : (predGeom p).bits = 8 ∨ (predGeom p).bits = 16)
     (hsz : (predGeom p).bpp * (predGeom p).columns ≤ FLT_ISIZE_MAX)
@@ -112,27 +166,43 @@ theorem stream_png_rt (ext : Ext) (deflate : Bytes → Bytes) (lzwEnc : Bool →
         (encodeImage (Spec.Png.bppSpec (predGeom p).colors (predGeom p).bits)
           (Spec.Png.rowBytesSpec (predGeom p).columns (predGeom p).colors (predGeom p).bits) rows)) :
     decompressedContent ext s = .ok (joinRows rows) := by
-  have h := (decoded_of_filters ext s f [] (by simpa using streamFilters_name _ _ hF)).1
-  have hp : decodeParms s.dict = some p := by simp [decodeParms, hP, Obj.asDict]
-  rw [h, hp, hc]
-  simp only [List.map, filterLoop]
+  have hsf : streamFilters s.dict = some [f.name] := by
+    rcases hF with h | h
+    · exact streamFilters_name _ _ h
+    · simpa using streamFilters_arr s.dict [f] (by simpa using h)
+  have h := (decoded_of_filters ext s f [] (by simpa using hsf)).1
+  have hp : stageParms s.dict 0 = some p := by
+    rcases hP with h | h
+    · exact stageParms_dict _ _ _ h
+    · rw [stageParms_arr _ _ _ h]; rfl
+  rw [h, hc]
+  simp only [List.map, filterLoop, hp]
   rw [applyFilter_png ext deflate lzwEnc p hfl hne hlzw hact hbits hsz hmul f hf rows hrows]
   rfl
 
 def toyPng : Strm :=
-  { dict := [(K_FILTER, .name F_FLATE), (K_DECODEPARMS, .dict wParms)],
+  { dict := [(K_FILTER, .name F_FLATE), (K_DECODEPARMS, .arr [.dict wParms])],
     content := 0 :: encodeImage 1 2 [(.up, [1, 2]), (.up, [3, 4])] }
 example : decompressedContent toyExt toyPng = .ok [1, 2, 3, 4] :=
   stream_png_rt toyExt (fun x => 0 :: x) (fun _ x => 1 :: x) (fun _ => rfl) (fun _ => by simp) (fun _ _ => rfl)
-    toyPng .flate (by decide) wParms rfl rfl (by decide) (by decide) (by decide) (by decide)
+    toyPng .flate (by decide) wParms (Or.inl rfl) (Or.inr rfl) (by decide) (by decide) (by decide) (by decide)
     [(.up, [1, 2]), (.up, [3, 4])] (by decide) (by decide)
 
-/-- F-C09-b, the full statement "parameters given … as an array parallel to the filters" is FALSE of the code:
-the same content decodes to the image with the dictionary form and is returned un-predicted with the array form. -/
-theorem parms_array_witness :
+/-- regression of the repaired F-C09-b: the former witness stream (`Filter [/FlateDecode]`,
+`DecodeParms [<</Predictor 12 /Columns 2>>]`) now decodes to the image, exactly like the dictionary form. -/
+theorem parms_array_regression :
     encodeImage 1 2 [(.up, [1, 2]), (.up, [3, 4])] = [2, 1, 2, 2, 2, 2] ∧
     decompressedContent wExt2 wDict = .ok [1, 2, 3, 4] ∧
-    decompressedContent wExt2 wArr = .ok [2, 1, 2, 2, 2, 2] := parms_array_witness'
+    decompressedContent wExt2 wArr = .ok [1, 2, 3, 4] := parms_array_regression'
+
+/-- array entries that are not dictionaries (null, numbers, references), missing entries and a `DecodeParms` that is
+neither dictionary nor array mean "no parameters" -/
+theorem stageParms_other :
+    stageParms [(K_DECODEPARMS, .arr [.null, .int 3, .ref 7 0])] 0 = none ∧
+    stageParms [(K_DECODEPARMS, .arr [.null, .int 3, .ref 7 0])] 1 = none ∧
+    stageParms [(K_DECODEPARMS, .arr [.null, .int 3, .ref 7 0])] 2 = none ∧
+    stageParms [(K_DECODEPARMS, .arr [.null, .int 3, .ref 7 0])] 3 = none ∧
+    stageParms [(K_DECODEPARMS, .ref 9 0)] 0 = none := by decide
 
 /-! ### compress / Length -/
 
